@@ -45,6 +45,9 @@ pub struct Scenario {
     pub desc: DescSpec,
     pub plan: Vec<(String, TTable)>,
     pub store: Option<TTable>,
+    /// store.toml exists but cannot be represented: 1 = not UTF-8, 2 = a directory
+    #[serde(default)]
+    pub bad_store: u8,
     /// style of CNB_BUILDPACK_DIR: 0 plain, 1 trailing slash, 2 with "/./"
     pub bp_dir_style: u8,
     /// inject EIO into one of the calls that read <platform>/env (position chosen by this value)
@@ -58,12 +61,13 @@ fn utf8(b: &[u8]) -> bool {
 impl Scenario {
     /// A value that cannot be represented must be a reported error.
     pub fn unrepresentable(&self) -> bool {
-        self.platform_present
-            && self.env_dir_present
-            && self.entries.iter().any(|e| match &e.kind {
-                EntryKind::File(c) | EntryKind::LinkToFile(c) => !utf8(c),
-                _ => false,
-            })
+        (self.build_phase && self.bad_store != 0)
+            || (self.platform_present
+                && self.env_dir_present
+                && self.entries.iter().any(|e| match &e.kind {
+                    EntryKind::File(c) | EntryKind::LinkToFile(c) => !utf8(c),
+                    _ => false,
+                }))
     }
 
     pub fn expected_env(&self) -> Value {
@@ -213,6 +217,7 @@ pub fn generate(seed: u64) -> Scenario {
             .map(|_| (s(&mut r, &["node", "jdk", "", "with space", "ünï"]), if r.bool() { gen_table(&mut r, 0) } else { Vec::new() }))
             .collect(),
         store: r.bool().then(|| gen_table(&mut r, 0)),
+        bad_store: if r.chance(1, 12) { 1 + r.below(2) as u8 } else { 0 },
         bp_dir_style: r.below(3) as u8,
         read_fault: r.chance(1, 6).then(|| r.next_u64()),
     }
@@ -273,7 +278,13 @@ fn read_stats(path: &Path) -> (i64, bool, String) {
 
 pub fn execute(s: &Scenario, root: &Path) -> Result<Executed, String> {
     let io = |e: std::io::Error| e.to_string();
-    let d = Dirs::create(root).map_err(io)?;
+    let mut d = Dirs::create(root).map_err(io)?;
+    // the scripted buildpack's own bookkeeping lives outside the prefix that may be faulted
+    let side = root.with_file_name(format!("{}-side", root.file_name().map(|n| n.to_string_lossy().into_owned()).unwrap_or_default()));
+    let _ = std::fs::remove_dir_all(&side);
+    std::fs::create_dir_all(&side).map_err(io)?;
+    let _ = std::fs::remove_dir(&d.markers);
+    d.markers = side.clone();
     std::fs::write(d.buildpack.join("buildpack.toml"), s.desc.emit()).map_err(io)?;
     let env_dir = d.platform.join("env");
     if !s.platform_present {
@@ -308,8 +319,14 @@ pub fn execute(s: &Scenario, root: &Path) -> Result<Executed, String> {
         plan.push('\n');
     }
     std::fs::write(&d.plan_in, plan).map_err(io)?;
-    if let Some(st) = &s.store {
-        std::fs::write(d.layers.join("store.toml"), format!("[metadata]\n{}", body(st))).map_err(io)?;
+    match s.bad_store {
+        1 => std::fs::write(d.layers.join("store.toml"), b"[metadata]\nk = \"\xff\xfe\"\n").map_err(io)?,
+        2 => std::fs::create_dir(d.layers.join("store.toml")).map_err(io)?,
+        _ => {
+            if let Some(st) = &s.store {
+                std::fs::write(d.layers.join("store.toml"), format!("[metadata]\n{}", body(st))).map_err(io)?;
+            }
+        }
     }
     let bp_dir_value = match s.bp_dir_style {
         0 => d.buildpack.display().to_string(),
@@ -352,22 +369,25 @@ pub fn execute(s: &Scenario, root: &Path) -> Result<Executed, String> {
         cwd: d.app.clone(),
         shim_plan: None,
     };
-    let stats = root.join("shim-stats.txt");
+    let stats = side.join("shim-stats.txt");
+    let script_path = side.join("script.json");
     let mut spawns = 0;
     let mut fault_fired = false;
     let mut fault_call = String::new();
     // readdir order of <platform>/env is permuted by the shim in every run (seeded by content)
     let rdseed = crate::rng::hash_bytes(root.as_os_str().as_bytes()) | 1;
+    // counted and faultable: every file-system call of the phase beneath its world (buildpack.toml,
+    // <platform>/env, the buildpack plan, store.toml)
     let base_plan = format!(
         "prog={arg0};prefix={};rdseed={rdseed};hashkey={};stats={}",
-        env_dir.display(),
+        root.display(),
         rdseed ^ 0x55,
         stats.display()
     );
     inv.shim_plan = Some(format!("{base_plan};mode=count"));
-    if let (Some(pos), true) = (s.read_fault, s.platform_present && s.env_dir_present) {
+    if let Some(pos) = s.read_fault {
         // counting run first, then the same run with the k-th matching call failing
-        let _ = run_phase(&inv, &script, &root.join("script.json"))?;
+        let _ = run_phase(&inv, &script, &script_path)?;
         spawns += 1;
         let (n, _, _) = read_stats(&stats);
         if n > 0 {
@@ -377,7 +397,7 @@ pub fn execute(s: &Scenario, root: &Path) -> Result<Executed, String> {
     }
     let _ = std::fs::remove_file(d.markers.join("detect_context.json"));
     let _ = std::fs::remove_file(d.markers.join("build_context.json"));
-    let result = run_phase(&inv, &script, &root.join("script.json"))?;
+    let result = run_phase(&inv, &script, &script_path)?;
     spawns += 1;
     if inv.shim_plan.as_deref().is_some_and(|p| p.contains("mode=error")) {
         let (_, fired, call) = read_stats(&stats);
@@ -405,7 +425,9 @@ pub fn judge(s: &Scenario, x: &Executed) -> Vec<String> {
     let on_error = r.count("on_error");
     if s.unrepresentable() || x.fault_fired {
         let why = if x.fault_fired {
-            format!("reading <platform>/env failed ({} -> EIO)", x.fault_call)
+            format!("reading an input the platform supplied failed ({} -> EIO)", x.fault_call)
+        } else if s.build_phase && s.bad_store != 0 {
+            "store.toml exists but cannot be read as UTF-8 TOML".to_string()
         } else {
             "a platform env file is not valid UTF-8".to_string()
         };
@@ -415,7 +437,7 @@ pub fn judge(s: &Scenario, x: &Executed) -> Vec<String> {
         if r.status() == 0 {
             v.push(format!("exit status 0 although {why}"));
         }
-        if on_error != 1 && cb == 0 {
+        if (on_error > 1 || (on_error == 0 && !x.fault_fired)) && cb == 0 {
             v.push(format!("error handler ran {on_error} times although {why}"));
         }
         return v;
@@ -452,6 +474,7 @@ pub fn judge(s: &Scenario, x: &Executed) -> Vec<String> {
         want["layers_dir"] = json!(hexbytes::encode(x.layers_arg.as_bytes()));
         want["plan"] = json!(s.plan.iter().map(|(n, m)| json!({"name": n, "metadata": table_json(m)})).collect::<Vec<_>>());
         want["store"] = s.store.as_ref().map_or(Value::Null, table_json);
+        let _ = s.bad_store;
     }
     if *dump != want {
         let keys: Vec<&String> = want.as_object().map(|m| m.keys().collect()).unwrap_or_default();
